@@ -59,9 +59,30 @@ func Decompose(v any, options ...*ojg.Options) any {
 		opt = options[0]
 	}
 	if opt.Converter != nil {
-		v = opt.Converter.Convert(v)
+		// A Converter modifies maps and slices in place, work on a copy to
+		// leave the original data unchanged.
+		v = opt.Converter.Convert(dupSimple(v))
 	}
 	return decompose(v, opt)
+}
+
+// dupSimple copies the maps and slices a Converter modifies in place.
+func dupSimple(v any) any {
+	switch tv := v.(type) {
+	case []any:
+		a := make([]any, len(tv))
+		for i, m := range tv {
+			a[i] = dupSimple(m)
+		}
+		return a
+	case map[string]any:
+		o := make(map[string]any, len(tv))
+		for k, m := range tv {
+			o[k] = dupSimple(m)
+		}
+		return o
+	}
+	return v
 }
 
 // Alter the data into all simple types converting non simple to simple types
